@@ -39,7 +39,12 @@ TVTeardown == /\ l <= Len(Rec) /\ Rec[l].ev = "teardown"
               /\ l' = l + 1
               /\ UNCHANGED <<judged, cur>>
 
-TVNext == TVTeardown \/ TVReset \/ TVCall
+\* the process under test was killed by a signal while this case ran (recorded by the driver; `begin` marks the letter that
+\* was in progress): judged like any other observation -- whatever the property, an input that kills the process breaks it
+TVCrashAny == /\ l <= Len(Rec) /\ Rec[l].ev \in {"crash", "begin"}
+              /\ viol' = IF Rec[l].ev = "crash" THEN AddViol(viol, {"ANY/process-killed-by-signal-" \o Str(Rec[l].signal)}, Rec[l].id) ELSE viol
+              /\ l' = l + 1 /\ UNCHANGED <<judged, cur>>
+TVNext == TVTeardown \/ TVReset \/ TVCall \/ TVCrashAny
 TVSpec == TVInit /\ [][TVNext]_tvars
 Post == PostOK
 Report == ReportAt(l, judged, viol)
